@@ -148,11 +148,24 @@ func mkBackend(kind, wrapper string, uniq string) (*backend, error) {
 			cfg.MemberlistKV = func() (*mlkv.KV, error) { return kvs, nil }
 			closers = append(closers, mnet.Stop)
 		}
+		// half of the mirroring multi clients get their primary switched to the other store at run time (the
+		// migration use case) before the history starts; mirroring then goes to the former primary
+		var cfgCh chan kv.MultiRuntimeConfig
+		if wrapper == "multi-mirror" && len(uniq)%2 == 0 {
+			cfgCh = make(chan kv.MultiRuntimeConfig, 1)
+			ch := cfgCh
+			cfg.Multi.ConfigProvider = func() <-chan kv.MultiRuntimeConfig { return ch }
+		}
 		c, err := kv.NewClient(cfg, codec, reg, logger)
 		if err != nil {
 			return nil, err
 		}
 		b.client = c
+		if cfgCh != nil {
+			cfgCh <- kv.MultiRuntimeConfig{PrimaryStore: cfg.Multi.Secondary}
+			time.Sleep(30 * time.Millisecond) // let the client's config watcher apply it; not part of any verdict
+			b.name += "/primary-switched"
+		}
 		if wrapper == "multi-mirror" {
 			if kind == "consul" {
 				b.secondary = kv.PrefixClient(mnet.Client(0, codec), cfg.Prefix)
